@@ -613,8 +613,88 @@ def task_constructor():
     return res
 
 
+REPLAY_CONCAT = '''
+from chempy import Reaction, ReactionSystem
+import numpy as np
+cs = %(cs)s
+rs = [ReactionSystem([Reaction({"A": c}, {"B": 1}, 1, name="r%%d" %% i)], "A B") for i, c in enumerate(cs)]
+tot, skipped = ReactionSystem.concatenate(rs)
+exp_kept, exp_skipped = [], []
+for i, c in enumerate(cs):
+    (exp_skipped if any(cs[j] == c for j in exp_kept) else exp_kept).append(i)
+got_kept = [int(r.name[1:]) for r in tot.rxns]; got_skipped = [int(r.name[1:]) for r in skipped.rxns]
+bad = []
+if got_kept != exp_kept or got_skipped != exp_skipped: bad.append("concatenate kept %%s skipped %%s, expected %%s / %%s" %% (got_kept, got_skipped, exp_kept, exp_skipped))
+rsys = ReactionSystem([Reaction({"A": 1}, {"B": 1}), Reaction({"B": 1}, {"C": 1})], "A B C")
+arr, keys = rsys.per_substance_varied({"A": 1, "B": 2, "C": 3}, {"C": [30, 31, 32], "A": [10, 11]})
+if keys != ("A", "C") or arr.shape != (2, 3, 3): bad.append("per_substance_varied shape/keys %%s %%s" %% (arr.shape, keys))
+else:
+    for i, a in enumerate([10, 11]):
+        for j, c in enumerate([30, 31, 32]):
+            if list(arr[i, j]) != [a, 2, c]: bad.append("per_substance_varied[%%d,%%d] = %%s" %% (i, j, list(arr[i, j])))
+d = {"C": 3.0, "A": 1.0, "B": 2.0}
+if list(rsys.as_per_substance_array(d)) != [1.0, 2.0, 3.0] or rsys.as_per_substance_dict([1.0, 2.0, 3.0]) != {"A": 1.0, "B": 2.0, "C": 3.0}: bad.append("array/dict order")
+for b in bad: print("MISMATCH", b)
+sys.exit(1 if bad else 0)
+'''
+
+
+def task_concatenate():
+    """concatenate of three systems: a reaction is kept iff its stoichiometry differs from every reaction kept before
+    (symbolic coefficients decide equality); per_substance_varied / array<->dict ordering by concrete structure"""
+    from chempy import Reaction, ReactionSystem
+    import chempy.chemistry as cc
+
+    cc.int = sym_int
+    cs = [Int("c%d" % i) for i in range(3)]
+    assum = [z3.And(c.t >= 1, c.t <= 2) for c in cs]
+
+    def fn():
+        rs = [ReactionSystem([Reaction({"A": c}, {"B": 1}, 1, name="r%d" % i, checks=())], "A B", checks=()) for i, c in enumerate(cs)]
+        tot, skipped = ReactionSystem.concatenate(rs)
+        return [int(r.name[1:]) for r in tot.rxns], [int(r.name[1:]) for r in skipped.rxns]
+
+    def goal(p, twin=False):
+        if p.kind == "exc":
+            return False
+        kept, skipped = p.value
+        if sorted(kept + skipped) != [0, 1, 2] or kept != sorted(kept) or 0 not in kept:
+            return False
+        conds = []
+        for i in (1, 2):
+            earlier_kept = [j for j in kept if j < i]
+            dup = z3.Or(*[cs[i].t == cs[j].t for j in earlier_kept]) if earlier_kept else z3.BoolVal(False)
+            conds.append(dup if (i in skipped) != twin else z3.Not(dup))
+        return z3.And(*conds)
+
+    o = explore_and_prove(fn, assum, goal, max_paths=500)
+    ot = explore_and_prove(fn, assum, lambda q: goal(q, True), max_paths=500, max_fail=1)
+    res = dict(engine="Z", functions=[env.describe(ReactionSystem.concatenate), env.describe(ReactionSystem.per_substance_varied),
+                                      env.describe(ReactionSystem.as_per_substance_array)], obligations=o.obligations + 1, discharged=o.discharged,
+               violations=[], inconclusive=list(o.inconclusive), queries=o.queries, paths=o.paths, solver_s=o.solver_s,
+               twin="violated" if ot.failed else "passed", bounds="3 single-reaction systems, coefficient 1..2 symbolic; ordering by concrete structure",
+               sample={"claim": "kept iff different from every reaction kept before"})
+    for p, m, g in o.failed[:1]:
+        res["violations"].append(dict(key="concatenate:%s" % p.kind, soft=wrapper_exc(p.value), desc="coefficients %s -> %r" % (concretize(m, cs), p.value),
+                                      replay_src=REPLAY_CONCAT % dict(cs=pyrepr(concretize(m, cs)))))
+    # ordering (float coercion inside: concrete structure only, values irrelevant)
+    import subprocess
+    import sys as _sys
+    rsys = ReactionSystem([Reaction({"A": 1}, {"B": 1}), Reaction({"B": 1}, {"C": 1})], "A B C")
+    arr, keys = rsys.per_substance_varied({"A": 1, "B": 2, "C": 3}, {"C": [30, 31, 32], "A": [10, 11]})
+    ok = keys == ("A", "C") and arr.shape == (2, 3, 3) and all(list(arr[i, j]) == [a, 2, c] for i, a in enumerate([10, 11]) for j, c in enumerate([30, 31, 32]))
+    ok = ok and list(rsys.as_per_substance_array({"C": 3.0, "A": 1.0, "B": 2.0})) == [1.0, 2.0, 3.0]
+    if ok:
+        res["discharged"] += 1
+    else:
+        res["violations"].append(dict(key="ordering:per_substance", desc="per-substance array/dict/varied ordering", replay_src=REPLAY_CONCAT % dict(cs="[1, 2, 1]")))
+    res["status"] = "violation" if res["violations"] else ("inconclusive" if res["inconclusive"] else "discharged")
+    return res
+
+
 def tasks(tier, seed):
-    ts = [dict(id="C15.constructor", fn="task_constructor", kwargs={}, timeout=900)]
+    ts = [dict(id="C15.constructor", fn="task_constructor", kwargs={}, timeout=900),
+          dict(id="C15.concatenate_ordering", fn="task_concatenate", kwargs={}, timeout=600)]
     fam = [(0, 3, 2, 5), (1, 2, 3, 5), (2, 2, 2, 6), (3, 2, 2, 7), (2, 2, 3, 5)]
     if tier == "thorough":
         fam += [(0, 4, 2, 5), (3, 3, 2, 7), (1, 3, 3, 5), (0, 3, 3, 6)]
